@@ -268,6 +268,52 @@ Theorem q_close_partial : forall (betaq : Q) beta tp fp fn,
     <= bpow radix2 (-53) * Q2R (c3 (f1 betaq tp fp fn)).
 Proof. exact f1_q_close_pr_l. Qed.
 Print Assumptions q_close_partial.
+
+(** ** the expression [_f1] had BEFORE the repair, [((1.0 + beta_sq) * precision * recall) / (beta_sq * precision + recall)] *)
+(** (2) for counts below 2^53 and every beta with a finite square it is finite and non-negative ... *)
+Theorem f1_fl_nonneg_finite : forall beta tp fp fn,
+  is_finite (fmul beta beta) = true ->
+  (Z.of_nat (tp + fp) < 2 ^ 53)%Z -> (Z.of_nat (tp + fn) < 2 ^ 53)%Z ->
+  is_finite (c1f (f1_fl_pinned beta tp fp fn)) = true /\ 0 <= B2R (c1f (f1_fl_pinned beta tp fp fn)).
+Proof. intros beta tp fp fn A B C. destruct (f1_fl_upper_l beta tp fp fn A B C) as (F & L & _). split; assumption. Qed.
+Print Assumptions f1_fl_nonneg_finite.
+
+(** (3b) ... and never above 1 + 2^-50 (the refutation above shows 1 + 2^-52 is reached) *)
+Theorem f1_fl_upper : forall beta tp fp fn,
+  is_finite (fmul beta beta) = true ->
+  (Z.of_nat (tp + fp) < 2 ^ 53)%Z -> (Z.of_nat (tp + fn) < 2 ^ 53)%Z ->
+  B2R (c1f (f1_fl_pinned beta tp fp fn)) <= 1 + bpow radix2 (-50).
+Proof. intros beta tp fp fn A B C. destruct (f1_fl_upper_l beta tp fp fn A B C) as (_ & _ & U). exact U. Qed.
+Print Assumptions f1_fl_upper.
+
+(** (3c) where the old expression WAS safe: counts below 2^31 and 2^-18 <= beta^2 <= 2^18 (|beta| between
+    2^-9 and 2^9; includes every beta in [0.01, 100]). Full statement "F <= 1 for all beta" is refuted above;
+    not decided: the bands 2^-53 < beta^2 < 2^-18 and 2^18 < beta^2 < 2^53 (violations exist there for some
+    counts, e.g. beta^2 = 2^-44 with tp = 2550, fn = 2) and counts of 2^31 or more. *)
+Theorem f1_fl_le_1_partial : forall beta tp fp fn,
+  is_finite (fmul beta beta) = true ->
+  bpow radix2 (-18) <= B2R (fmul beta beta) <= bpow radix2 18 ->
+  (Z.of_nat (tp + fp) < 2 ^ 31)%Z -> (Z.of_nat (tp + fn) < 2 ^ 31)%Z ->
+  fin01 (c1f (f1_fl_pinned beta tp fp fn)).
+Proof. exact f1_fl_le_1_partial_l. Qed.
+Print Assumptions f1_fl_le_1_partial.
+
+(** non-vacuity of the hypotheses: beta = 0.5 has a finite square inside [2^-18, 2^18]; so has beta_tiny
+    a finite square (outside that band) *)
+Example beta_half_ok :
+  let beta := fdiv f_one (of_Z 2) in
+  (is_finite (fmul beta beta) = true) /\ (Bleb (fdiv f_one (of_Z 262144)) (fmul beta beta) = true)
+  /\ (Bleb (fmul beta beta) (of_Z 262144) = true).
+Proof. vm_compute. repeat split. Qed.
+(** binary_f1 on 3 true positives and 1 false negative with that beta: the float model computes
+    (F, precision, recall) = (0.9375, 1.0, 0.75) exactly *)
+Example f1_fl_example :
+  option_map (fun x => (B2SF (c1f x), B2SF (c2f x), B2SF (c3f x)))
+             (binary_f1_fl (fdiv f_one (of_Z 2)) [true; true; true; false] [true; true; true; true])
+  = Some (SpecFloat.S754_finite false 8444249301319680 (-53),
+          SpecFloat.S754_finite false 4503599627370496 (-52),
+          SpecFloat.S754_finite false 6755399441055744 (-53)).
+Proof. vm_compute. reflexivity. Qed.
 End Fl.
 
 (** ** non-vacuity *)
